@@ -679,12 +679,17 @@ class Client:
         :returns: the script's content on succes, None otherwise
         """
         code, data, content = self.__send_command(
-            "GETSCRIPT", [name.encode("utf-8")], withcontent=True
+            "GETSCRIPT",
+            [name.encode("utf-8")],
+            withcontent=True,
+            quote_literals=True,
         )
         if code == "OK":
+            # the script is a single string, whether sent quoted or as a literal
+            m = re.match(rb'"((?:[^"\\]|\\.)*)"', content, re.S)
+            if m is not None:
+                content = re.sub(rb"\\(.)", rb"\1", m.group(1), flags=re.S)
             lines = content.splitlines()
-            if self.__size_expr.match(lines[0]) is not None:
-                lines = lines[1:]
             return "\n".join([line.decode("utf-8") for line in lines])
         return None
 
